@@ -30,7 +30,10 @@ PREFIXES = ["", "a \"(\"", "f '['", "(a) '->'", "x \"!>\"", "a 'b'", "return", "
             "a.", "..", "<", "<<", ">>", "!", "-", "/", "#", "def ", "f(", "a ", "'", "\"", "0"]
 PATTERN_POOL = ["//a{99999999999999999999}//", "//(?i)(?-i)a//", "//" + "(" * 120 + ")" * 120 + "//", "//a{1,99999999999}//",
                 "//[//", "//(//", "//*//", "//\\//", "//(?P<//", "//a{2,1}//", "//a//", "//[a-z]+//",
-                "//)//", "//+//", "//?//", "//a**//", "//(?<x)//", "//[z-a]//", "//\\1//"]
+                "//)//", "//+//", "//?//", "//a**//", "//(?<x)//", "//[z-a]//", "//\\1//",
+                # incompatible inline flags (ValueError in re.compile); literals beyond the host's int <-> str limit
+                "//(?a)(?u)x//", "//(?L)x//", "//(?a)(?L)x//", "9" * 4301, "0x" + "f" * 3700, "0b" + "1" * 14500,
+                "1_" + "0" * 4300, "9" * 4300 + ".5"]
 
 
 def bounds(tier):
